@@ -98,7 +98,7 @@ def shapes(tier, seed):
     rnd = random.Random(1700 + seed)
     n = 40 if tier == 'quick' else 800
     for i in range(n):
-        prog, syms = c02.random_program(rnd, rnd.randint(6, 12))
+        prog, syms = c02.random_program(rnd, rnd.randint(6, 12), rich_branches=False)
         prog = [st for st in prog if st[0] != 'org']
         prog = [('align', ('c', 4)) if st[0] == 'align' and st[1][0] == 'c' and st[1][1] > 8 else st for st in prog]
         syms = [s for s in syms if s != 'v1']
